@@ -60,6 +60,7 @@ let topo = ref { fin = N0; inf = false }
 let env : n list option ref = ref None
 let dead = ref true
 let adopted = ref false
+let nokinds = ref false   (* HWLOC_TOPOLOGY_FLAG_NO_CPUKINDS: an XML reload ignores the exported kinds *)
 let nodes : (n * bset) list ref = ref []
 
 let dump () =
@@ -105,7 +106,8 @@ let () =
     let l = input_line ic in
     let t = Array.of_list (List.filter (fun s -> s <> "") (String.split_on_char ' ' l)) in
     if Array.length t > 0 then begin
-      if t.(0) = "case" then begin
+      if t.(0) = "case" || t.(0) = "flagcase" then begin
+        nokinds := (t.(0) = "flagcase");
         st := init_state; env := None; dead := false; adopted := false;
         (* "case name N": pu:N, one NUMA node with every PU;
            "case name desc topo nn idx set ...": the generator's layout of the synthetic description *)
@@ -124,7 +126,7 @@ let () =
       end else if t.(0) = "casestate" then begin
         (* state taken over from the implementation (kinds registered by an OS backend):
            casestate name topo env nn { idx set } alloc nk { set eff forced rankhex arr ninfos {name value} } *)
-        dead := false; adopted := false;
+        dead := false; adopted := false; nokinds := false;
         topo := (match parse_set t.(2) with Some s -> s | None -> failwith "topo");
         env := (if t.(3) = "-" then None else Some (str_of_hex t.(3)));
         let nn = int_of_string t.(4) in
@@ -180,7 +182,7 @@ let () =
           (get_info !st (nat_of_int (int_of_string t.(1))) (n_of_int (int_of_string t.(2))))
       | "rank" -> do_op "rank" OpRank
       | "dup" -> do_op "dup" OpDup
-      | "xml" -> do_op "xml" OpXml
+      | "xml" -> if !nokinds then begin adopted := false; outcome "xml" (Fine (init_state, RC_OK)) end else do_op "xml" OpXml
       | _ -> ()
     end
   done with End_of_file -> ());
